@@ -37,6 +37,16 @@ def cases():
             op(o, "kv2", node("PropertyEQ", this=lit("c", True), expression=S("v")))]))),
         lambda o, i: P("Anonymous", this="TO_JSON", expressions=LIST(P("Struct", expressions=LIST(IS(o["kv1"]), IS(o["kv2"]))))),
         "OBJECT_CONSTRUCT omits pairs whose key or value is NULL")
+    def not_empty_struct(v, path):
+        inner = v.args.get("expressions").items[0] if isinstance(v, NodeV) and v.cls == "Anonymous" and isinstance(v.args.get("expressions"), Lst) \
+            and v.args["expressions"].items else v
+        if isinstance(inner, NodeV) and inner.cls == "Struct" and isinstance(inner.args.get("expressions"), Lst) and not inner.args["expressions"].items:
+            return f"{path} is a struct literal without fields (`{{}}`), which DuckDB cannot parse; expected the empty object"
+        return None
+
+    add("OBJECT_CONSTRUCT('a', NULL) (every pair dropped) is the empty object", "object_construct",
+        mk(lambda o: node("Struct", "stmt", expressions=Lst([node("PropertyEQ", this=lit("a", True), expression=node("Null"))]))),
+        lambda o, i: not_empty_struct, "OBJECT_CONSTRUCT omits NULL-valued pairs; with nothing left the result is {} — not a statement DuckDB refuses")
     add("v['k'] -> json_extract(v, '$.k')", "indices_to_json_extract",
         mk(lambda o: node("Bracket", "stmt", this=op(o, "x"), expressions=Lst([lit("k", True)]))),
         lambda o, i: P("JSONExtract", this=IS(o["x"]), expression=LITERAL("$.k", True)), "object access by key")
